@@ -1026,13 +1026,14 @@ pub fn all() -> Vec<Scn> {
         mk(rusl::io_uring::setup_io_uring(8, rusl::platform::IoUringParamFlags::empty(), 0, 0), |u| vec![u.fd.value()])
     }));
 
+    v.extend(crate::recv::all());
     #[cfg(not(feature = "noalloc"))]
     v.extend(crate::variants::all());
     #[cfg(feature = "noalloc")]
     {
         // the stack-buffer branch of create_dir_all: a path longer than 512 bytes is refused without an allocator
         v.push(scn("fs::create_dir_all[path>512]", |e| mk(fs::create_dir_all(&e.u(&"abcdefghi/".repeat(60))), nofd)).prep(|e| e.rm("abcdefghi")));
-        v.retain(|s| s.name.starts_with("process::spawn") || s.name.starts_with("fs::create_dir_all"));
+        v.retain(|s| s.name.starts_with("process::spawn") || s.name.starts_with("fs::create_dir_all") || s.name.starts_with("recvmsg"));
     }
     v
 }
